@@ -346,6 +346,8 @@ func countSub(s, sub string) int {
 	return n
 }
 
+type c12Lang string
+
 type c12Kw struct {
 	In    int
 	Nil   string
@@ -359,7 +361,12 @@ func HarnessC12Keywords() {
 	s := symBytesAny("s", 1)
 	v := c12Kw{In: 4, Nil: s, True: true, Else: 7, Plain: 1}
 	data := map[string]any{"v": v, "m": map[string]any{"In": 5, "False": s}, "In": 6, "Nil": s}
+	// maps whose key type is a named string type are string-keyed maps too
+	data["lm"] = map[c12Lang]string{"en": s, "de": "x"}
+	data["w"] = &struct{ L map[c12Lang]string }{map[c12Lang]string{"en": s}}
+	data["ls"] = []map[c12Lang]int{{"en": 3}}
 	cases := [][2]string{
+		{"{{ lm.en }}", s}, {"{{ lm[\"de\"] }}", "x"}, {"{{ w.L.en }}", s}, {"{{ ls[0].en }}", "3"},
 		{"{{ v.In }}", "4"}, {"{{ v.Nil }}", s}, {"{{ v.True }}", "1"}, {"{{ v.Else }}", "7"}, {"{{ v.Plain }}", "1"},
 		{"{{ m.In }}", "5"}, {"{{ m.False }}", s}, {"{{ In }}", "6"}, {"{{ Nil }}", s}, {"{{ v[\"In\"] }}", "4"},
 	}
